@@ -250,11 +250,20 @@ def _attr_type_chain(f: FuncInfo):
     out = {}
     for n in own_nodes(f.node):
         if isinstance(n, ast.If) and isinstance(n.test, ast.Compare) and len(n.test.comparators) == 1:
-            d = dotted_of(n.test.comparators[0]) or ""
-            if "AttributeType." in d:
-                mem = d.rsplit(".", 1)[1]
+            for mem in _attr_type_members(n.test.comparators[0]):
                 only_raise = all(isinstance(s, ast.Raise) for s in n.body)
                 out[mem] = "raises" if only_raise else "handled"
+    return out
+
+
+def _attr_type_members(e) -> list[str]:
+    """Members of AttributeType an if-test compares with: `== AttributeType.X`, or `in (AttributeType.X, AttributeType.Y)`."""
+    els = e.elts if isinstance(e, (ast.Tuple, ast.Set, ast.List)) else [e]
+    out = []
+    for x in els:
+        d = dotted_of(x) or ""
+        if "AttributeType." in d:
+            out.append(d.rsplit(".", 1)[1])
     return out
 
 
@@ -263,14 +272,15 @@ def _branch_fields(f: FuncInfo, proto_param: str, fields: set) -> dict:
     out = {}
     for n in own_nodes(f.node):
         if isinstance(n, ast.If) and isinstance(n.test, ast.Compare) and len(n.test.comparators) == 1:
-            d = dotted_of(n.test.comparators[0]) or ""
-            if "AttributeType." in d:
+            mems = _attr_type_members(n.test.comparators[0])
+            if mems:
                 got = set()
                 for b in n.body:
                     for x in ast.walk(b):
                         if isinstance(x, ast.Attribute) and isinstance(x.value, ast.Name) and x.value.id == proto_param and x.attr in fields:
                             got.add(x.attr)
-                out[d.rsplit(".", 1)[1]] = got
+                for mem in mems:
+                    out[mem] = set(got) if len(mems) == 1 else out.get(mem, set()) | got
     return out
 
 
